@@ -68,7 +68,8 @@ def globAtoms : List Atom → List Char → Bool
 def globMatch (ast : Ast) (s : List Char) : Bool := globAtoms ast s
 
 /-- patterns inside the notation POSIX defines (for the POSIX locale): class names are defined, no class
-    as range bound, no empty symbol, ranges not inverted -/
+    as range bound, no empty symbol, ranges not inverted (and no empty bracket, which the parser never
+    produces) -/
 def atomDefined : BracketAtom → Bool
   | .char _ => true
   | .collating v => v != []
@@ -82,30 +83,46 @@ def itemDefined : BracketItem → Bool
     | _, _ => false
 
 def atomOk : Atom → Bool
-  | .bracket b => b.items.all itemDefined
+  | .bracket b => b.items != [] && b.items.all itemDefined
   | _ => true
 
 def astDefined (ast : Ast) : Bool := ast.all atomOk
 
-/-- prefix / suffix removal: `#` `##` `%` `%%` delete the shortest / longest matching prefix / suffix -/
-def matchingPrefixLens (ast : Ast) (v : List Char) : List Nat :=
-  (List.range (v.length + 1)).filter fun k => globMatch ast (v.take k)
+/-- no bracket expression contains a multi-character collating element (`[.ab.]`, `[=ab=]`): the
+    patterns inside POSIX's defined notation for the POSIX locale, which has no such elements -/
+def noMultiAtom : Atom → Bool
+  | .bracket b => !b.multi
+  | _ => true
 
-def matchingSuffixStarts (ast : Ast) (v : List Char) : List Nat :=
-  (List.range (v.length + 1)).filter fun k => globMatch ast (v.drop k)
+def noMulti (ast : Ast) : Bool := ast.all noMultiAtom
 
+/-- the least `k ≤ n` with `p k` -/
+def leastUpTo (p : Nat → Bool) : Nat → Option Nat
+  | 0 => if p 0 then some 0 else none
+  | n + 1 => match leastUpTo p n with
+    | some k => some k
+    | none => if p (n + 1) then some (n + 1) else none
+
+/-- the greatest `k ≤ n` with `p k` -/
+def greatestUpTo (p : Nat → Bool) : Nat → Option Nat
+  | 0 => if p 0 then some 0 else none
+  | n + 1 => if p (n + 1) then some (n + 1) else greatestUpTo p n
+
+/-- prefix / suffix removal: `#` `##` `%` `%%` delete the shortest / longest matching prefix / suffix:
+    the least / greatest prefix length `k` with `v.take k` matching, the greatest / least suffix start `k`
+    with `v.drop k` matching; nothing is removed when there is none -/
 def specTrim (side : TrimSide) (len : TrimLength) (ast : Ast) (v : List Char) : List Char :=
   match side, len with
-  | .prefix, .shortest => match (matchingPrefixLens ast v).head? with
+  | .prefix, .shortest => match leastUpTo (fun k => globMatch ast (v.take k)) v.length with
     | some k => v.drop k
     | none => v
-  | .prefix, .longest => match (matchingPrefixLens ast v).getLast? with
+  | .prefix, .longest => match greatestUpTo (fun k => globMatch ast (v.take k)) v.length with
     | some k => v.drop k
     | none => v
-  | .suffix, .shortest => match (matchingSuffixStarts ast v).getLast? with
+  | .suffix, .shortest => match greatestUpTo (fun k => globMatch ast (v.drop k)) v.length with
     | some k => v.take k
     | none => v
-  | .suffix, .longest => match (matchingSuffixStarts ast v).head? with
+  | .suffix, .longest => match leastUpTo (fun k => globMatch ast (v.drop k)) v.length with
     | some k => v.take k
     | none => v
 
